@@ -83,20 +83,23 @@ Definition exact_term (t : pyterm) : bool :=
   match t with PNode CTerm _ _ => true | _ => false end.
 Definition is_ad (t : pyterm) : bool := match t with PAD _ _ => true | _ => false end.
 
+(* a == b for two Term objects, neither an AnnotatedDisjunction, given
+   sa = str(a) and sb = str(b).  Python tries the right operand's __eq__ first
+   when its class is a proper subclass of the left operand's class: here
+   exactly "a is a plain Term, b is not".  Var.__eq__ and Constant.__eq__
+   compare the two strings; everything else is Term.__eq__.                  *)
+Definition eq_nonad_s (sa sb : string) (a b : pyterm) : bool :=
+  let swap := exact_term a && negb (exact_term b) in
+  let x := if swap then b else a in
+  let y := if swap then a else b in
+  if strcls x then String.eqb (if swap then sb else sa) (if swap then sa else sb) else walk x y.
+
 Section WithStr.
-  (* R t = str(t).  Constant.__eq__ and Var.__eq__ compare str() of both
-     operands; every theorem is stated for an arbitrary R that is right on
-     Constant and Var nodes; repr_m below is the concrete printer.          *)
+  (* R t = str(t).  Every theorem is stated for an arbitrary R that is right
+     on Constant and Var nodes; repr_m below is the concrete printer.        *)
   Variable R : pyterm -> string.
 
-  (* a == b for two Term objects, neither an AnnotatedDisjunction.  Python
-     tries the right operand's __eq__ first when its class is a proper subclass
-     of the left operand's class: here exactly "a is a plain Term, b is not". *)
-  Definition eq_nonad (a b : pyterm) : bool :=
-    let swap := exact_term a && negb (exact_term b) in
-    let x := if swap then b else a in
-    let y := if swap then a else b in
-    if strcls x then String.eqb (R x) (R y) else walk x y.
+  Definition eq_nonad (a b : pyterm) : bool := eq_nonad_s (R a) (R b) a b.
 
   (* == between elements of AD.heads / AD.body (Term objects or None) *)
   Definition eq_elem (a b : pyterm) : bool :=
@@ -114,18 +117,20 @@ Section WithStr.
     | _, _ => false
     end.
 
-  (* a == b for two Term objects *)
-  Definition eq_m (a b : pyterm) : bool :=
+  (* a == b for two Term objects, given sa = str(a), sb = str(b) *)
+  Definition eq_m_s (sa sb : string) (a b : pyterm) : bool :=
     match a, b with
     | PAD h1 b1, PAD h2 b2 => list_eqb h1 h2 && eq_elem b1 b2
     | PAD _ _, _ => false                      (* AD.__eq__: type(self) != type(other) *)
     | PNode _ _ _, PAD _ _ =>
         if exact_term a then false             (* reflected AD.__eq__ *)
-        else if strcls a then String.eqb (R a) (R b)
+        else if strcls a then String.eqb sa sb
         else false                             (* Term.__eq__: type mismatch *)
-    | PNode _ _ _, PNode _ _ _ => eq_nonad a b
+    | PNode _ _ _, PNode _ _ _ => eq_nonad_s sa sb a b
     | _, _ => false                            (* not Term objects: outside the domain *)
     end.
+
+  Definition eq_m (a b : pyterm) : bool := eq_m_s (R a) (R b) a b.
 End WithStr.
 
 (* ---------------------------------------------------------------- str() *)
@@ -243,20 +248,24 @@ Definition inner_top (t : pyterm) : string := inner (2 * size t + 2) t.
    generic loop.  AnnotatedDisjunction.__repr__ prints its heads with their
    probabilities and is not modelled (ADs are outside the repr fragment).    *)
 Fixpoint repr_m (t : pyterm) {struct t} : string :=
+  (* And/Or print their operands with term2str (None -> "_", int -> A1/X1),
+     Not and Clause with plain str() (None -> "None", int -> decimal) *)
+  let t2s x := match x with PNone | PInt _ => inner_top x | _ => repr_m x end in
+  let pys x := match x with PNone => "None" | PInt z => dec z | _ => repr_m x end in
   match t with
   | PNode c f [x] =>
       if cls_eqb c CNot then
-        let s := paren_if (is_cls x CAnd || is_cls x COr) (repr_m x) in
+        let s := paren_if (is_cls x CAnd || is_cls x COr) (pys x) in
         if fis f "not" then "not " ++ s else str_val f ++ s
       else inner_top t
   | PNode c f [x; y] =>
       if cls_eqb c CAnd then
-        paren_if (is_cls x COr) (repr_m x) ++ ", " ++ paren_if (is_cls y COr) (repr_m y)
-      else if cls_eqb c COr then repr_m x ++ "; " ++ repr_m y
+        paren_if (is_cls x COr) (t2s x) ++ ", " ++ paren_if (is_cls y COr) (t2s y)
+      else if cls_eqb c COr then t2s x ++ "; " ++ t2s y
       else if cls_eqb c CClause then
         match x with
-        | PNode _ g _ => if fis g "_directive" then ":- " ++ repr_m y else repr_m x ++ " :- " ++ repr_m y
-        | _ => repr_m x ++ " :- " ++ repr_m y
+        | PNode _ g _ => if fis g "_directive" then ":- " ++ pys y else pys x ++ " :- " ++ pys y
+        | _ => pys x ++ " :- " ++ pys y
         end
       else inner_top t
   | _ => inner_top t
@@ -327,6 +336,23 @@ Section WithCfg.
                   (if Nat.ltb (length hs) 10 && Nat.leb (length hs + arglen b) 10 then [hk b] else [])))
     end.
 End WithCfg.
+
+(* structural equality of hash keys (used by the correspondence only) *)
+Fixpoint hkey_eqb (a b : hkey) {struct a} : bool :=
+  match a, b with
+  | HKstr s, HKstr t => String.eqb s t
+  | HKint x, HKint y => Z.eqb x y
+  | HKfloat r, HKfloat s => String.eqb r s
+  | HKnone, HKnone => true
+  | HKtuple l1, HKtuple l2 =>
+      (fix go (l1 l2 : list hkey) {struct l1} : bool :=
+         match l1, l2 with
+         | [], [] => true
+         | x :: r1, y :: r2 => hkey_eqb x y && go r1 r2
+         | _, _ => false
+         end) l1 l2
+  | _, _ => false
+  end.
 
 (* ---------------------------------------------------------------- unification on ground terms *)
 (* str.strip("'") *)
